@@ -131,6 +131,12 @@ func runC18(p *Program, r *Result) {
 			_, comment := findFact(atoms, func(a Atom) bool {
 				return a.Kind == "call" && a.Pol && a.Call.S == "strings.HasPrefix" && len(a.Call.Args) == 2 && a.Call.Args[0].V == line && a.Call.Args[1].S == `"#"`
 			})
+			if !comment {
+				// the same test on the first byte: line[0] == '#'
+				_, comment = findFact(atoms, func(a Atom) bool {
+					return a.Kind == "cmp" && a.Op == "==" && a.Y.S == "35" && a.X.Op == "Elem" && len(a.X.Args) == 2 && a.X.Args[0].V == line && a.X.Args[1].S == "0"
+				})
+			}
 			_, blank := findFact(atoms, func(a Atom) bool {
 				return a.Kind == "cmp" && a.Op == "==" && a.Y.S == "0" && isLenTerm(a.X) && a.X.Args[0].V == line
 			})
